@@ -69,6 +69,20 @@ pub fn document(lhs: &str, program: &Program) -> String {
     src
 }
 
+/// the same document shape with raw source text for the binding value (may contain further bindings of object `a`)
+pub fn document_raw(lhs: &str, value_text: &str) -> String {
+    let mut src = String::from("import qmluic.QtWidgets\nQWidget {\n    windowTitle: \"anchor\"\n");
+    for (id, cls) in OBJECTS {
+        src.push_str(&format!("    {cls} {{\n        id: {id}\n"));
+        if *id == "a" {
+            src.push_str(&format!("        {lhs}: {value_text}\n"));
+        }
+        src.push_str("    }\n");
+    }
+    src.push_str("}\n");
+    src
+}
+
 pub struct Observed {
     pub code: Option<Sexp>,
     pub eval: Option<Sexp>,
